@@ -582,10 +582,14 @@ func PrintFile(f *File) string {
 				// (the declared type is not interpreted; its spelling varies with the name)
 				types := []string{"?", "any", "string", "list<string>", "map<string, int>", "[a: int, b: string]", "bool|null", "?  "}
 				ty := types[(len(pd.Name)*7+int(pd.Name[0]))%len(types)]
+				// (a default value is parsed and kept but never applied: the param stays as required as it
+				// was declared)
+				defs := []string{"", "", " = 'Hello'", "", "=3", "", " = null ", " = ['a', 'b']", "", " = -1", "= true"}
+				def := defs[(len(pd.Name)*5+int(pd.Name[len(pd.Name)-1])+len(t.Name))%len(defs)]
 				if pd.Optional {
-					b.WriteString("{@param? " + pd.Name + ": " + ty + "}")
+					b.WriteString("{@param? " + pd.Name + ": " + ty + def + "}")
 				} else {
-					b.WriteString("{@param " + pd.Name + ":" + ty + " }")
+					b.WriteString("{@param " + pd.Name + ":" + ty + def + " }")
 				}
 			}
 		}
